@@ -420,10 +420,7 @@ pub fn cosim(c: &CoCase, st: &mut Stats) -> Result<(), String> {
             COp::Policy(p) => {
                 policy = *p;
                 switched = true;
-                dev.with(|d| {
-                    d.qs.policy = *p;
-                    with(|w| d.qs.arm(w, 0));
-                });
+                dev.with(|d| with(|w| d.set_policy(w, *p)));
                 sig.add(match p {
                     Serve::OnNotify => 100,
                     Serve::Poll => 101,
